@@ -34,9 +34,10 @@ build() { # $1 = variant
 
 need_builds() { # which binaries a property needs
   case "$1" in
-    C06|C20) echo "default purego 386" ;;
-    C13)     echo "default race 386" ;;
-    C01|C02|C03|C04|C05|C07|C08|C09|C10|C11|C12|C14|C15|C16|C17|C18|C19) echo "default 386" ;;
+    C06)     echo "default purego 386" ;;
+    C20)     echo "default purego race 386" ;;
+    C13|C01|C03|C09|C10|C14|C15|C16|C18) echo "default race 386" ;;
+    C02|C04|C05|C07|C08|C11|C12|C17|C19) echo "default 386" ;;
     *)       echo "default" ;;
   esac
 }
